@@ -31,6 +31,15 @@ MUTANTS = {
     "trigger-le": {"edits": [E(MP, "mp.triggered < mp.triggerFrames", "mp.triggered <= mp.triggerFrames")], "props": ["C04"]},
     "refused-start-resets-run": {"edits": [E(MP, "\t\t\tmp.log.Printf(\"Recording not started: %v\", err)\n", "\t\t\tmp.log.Printf(\"Recording not started: %v\", err)\n\t\t\tmp.triggered = 0\n")], "props": ["C04"]},
     "check-ignored": {"edits": [E(MP, "\treturn mp.recorder.CheckCanRecord()\n", "\tmp.recorder.CheckCanRecord()\n\treturn nil\n")], "props": ["C04"]},
+    # ---- C12 / C17
+    "cr-ge": {"edits": [E(MP, "if mp.crFrames > mp.maxFrames {", "if mp.crFrames >= mp.maxFrames {")], "props": ["C17"]},
+    "snapshot-22": {"edits": [E(MP, "if mp.snapshotFrames > 20 {", "if mp.snapshotFrames > 21 {")], "props": ["C17"]},
+    "snapshot-skips-frame": {"edits": [E(MP, "\t\tmp.SnapshotRecording = true\n\t}\n".replace("\\t", "\t").replace("\\n", "\n"), "\t\tmp.SnapshotRecording = true\n\t\treturn\n\t}\n".replace("\\t", "\t").replace("\\n", "\n"))], "props": ["C17"]},
+    "cr-only-in-window": {"edits": [E(MP, "\tif mp.crFrames == 0 {\n".replace("\\t", "\t").replace("\\n", "\n"), "\tif mp.crFrames == 0 && !mp.window.Active() {\n\t\treturn\n\t}\n\tif mp.crFrames == 0 {\n".replace("\\t", "\t").replace("\\n", "\n"))], "props": ["C17"]},
+    "revert-F4": {"edits": [E(MP, "\tmp.constantRecorder.StopRecording()\n\tmp.crFrames = 0\n".replace("\\t", "\t").replace("\\n", "\n"), "\tmp.constantRecorder.StopRecording()\n".replace("\\t", "\t").replace("\\n", "\n"))], "props": ["C12"]},
+    "revert-F5": {"edits": [E(MP, "if mp.StartSnapshot && mp.SnapshotRecording {", "if false {")], "props": ["C12"]},
+    "isrecording-before-start": {"edits": [E(MP, "\n\tif err := mp.recorder.StartRecording(mp.motionDetector.background, mp.motionDetector.tempThresh); err != nil {\n".replace("\\t", "\t").replace("\\n", "\n"), "\n\tmp.isRecording = true\n\tif err := mp.recorder.StartRecording(mp.motionDetector.background, mp.motionDetector.tempThresh); err != nil {\n".replace("\\t", "\t").replace("\\n", "\n"))], "props": ["C12", "C04"]},
+    "no-stop-on-bad-frame": {"edits": [E(MP, "\t\tmp.stopRecording()\n\t\tmp.stopConstantRecorder()\n".replace("\\t", "\t").replace("\\n", "\n"), "\t\tmp.stopConstantRecorder()\n".replace("\\t", "\t").replace("\\n", "\n"))], "props": ["C03", "C01"]},
     # ---- C20
     "ll-update-time-on-suppress": {"edits": [E(LL, "\tif now.Sub(limiter.previousTime) < limiter.interval && s == limiter.previousEntry {\n\t\treturn\n", "\tif now.Sub(limiter.previousTime) < limiter.interval && s == limiter.previousEntry {\n\t\tlimiter.previousTime = now\n\t\treturn\n")], "props": ["C20"]},
     "ll-le-boundary": {"edits": [E(LL, "now.Sub(limiter.previousTime) < limiter.interval", "now.Sub(limiter.previousTime) <= limiter.interval")], "props": ["C20"]},
